@@ -69,6 +69,8 @@ func (o sop) token(styles []int) (string, bool) {
 		return fmt.Sprintf("Y,%d,%d,%d", o.Col, o.Row, styles[o.St]), true
 	case "R":
 		return fmt.Sprintf("R,%d,%d", o.Row, styles[o.St]), true
+	case "CS":
+		return fmt.Sprintf("Z,%d,%d", o.Col, styles[o.St]), true
 	case "M":
 		return fmt.Sprintf("M,%d,%d,%d,%d", o.Col, o.Row, o.Col2, o.Row2), true
 	case "W", "O":
@@ -127,6 +129,11 @@ func (o sop) apply(f *excelize.File, sheet string, styles []int) (*excelize.File
 	case "CV":
 		cn, _ := excelize.ColumnNumberToName(o.Col)
 		err = f.SetColVisible(sheet, cn, o.B)
+	case "CO":
+		cn, _ := excelize.ColumnNumberToName(o.Col)
+		err = f.SetColOutlineLevel(sheet, cn, uint8(o.I))
+	case "RO":
+		err = f.SetRowOutlineLevel(sheet, o.Row, uint8(o.I))
 	case "L":
 		if o.B {
 			err = f.SetCellHyperLink(sheet, o.cell(), o.S, "External")
@@ -224,14 +231,16 @@ func fullObservation(f *excelize.File, sheet string, w, h int) string {
 	for r := 1; r <= h; r++ {
 		ht, _ := f.GetRowHeight(sheet, r)
 		vis, _ := f.GetRowVisible(sheet, r)
-		fmt.Fprintf(&sb, "|r%d:%v,%v", r, ht, vis)
+		ol, _ := f.GetRowOutlineLevel(sheet, r)
+		fmt.Fprintf(&sb, "|r%d:%v,%v,%d", r, ht, vis, ol)
 	}
 	for c := 1; c <= w; c++ {
 		cn, _ := excelize.ColumnNumberToName(c)
 		wd, _ := f.GetColWidth(sheet, cn)
 		vis, _ := f.GetColVisible(sheet, cn)
 		st, _ := f.GetColStyle(sheet, cn)
-		fmt.Fprintf(&sb, "|c%s:%v,%v,%d", cn, wd, vis, st)
+		ol, _ := f.GetColOutlineLevel(sheet, cn)
+		fmt.Fprintf(&sb, "|c%s:%v,%v,%d,%d", cn, wd, vis, st, ol)
 	}
 	return sb.String()
 }
